@@ -4,7 +4,7 @@
 
 use super::fmt::{flat_join, join, Span, TokenFmt};
 use super::{DocString, NumberParts};
-use crate::ast::{Expr, Precedence, UnaryOpType};
+use crate::ast::{BinOpType, Expr, Precedence, UnaryOpType};
 use crate::output::Digits;
 use chrono::{DateTime, TimeZone};
 use serde_derive::Serialize;
@@ -199,8 +199,22 @@ impl ExprReply {
                     if prec < Precedence::Mul {
                         literal!("(");
                     }
-                    for expr in exprs.iter() {
+                    for (i, expr) in exprs.iter().enumerate() {
+                        // A leading sign would be read as addition/subtraction.
+                        let signed = match *expr {
+                            Expr::UnaryOp(ref unaryop) => match unaryop.op {
+                                UnaryOpType::Positive | UnaryOpType::Negative => i > 0,
+                                UnaryOpType::Degree(_) => false,
+                            },
+                            _ => false,
+                        };
+                        if signed {
+                            literal!("(");
+                        }
                         recurse(expr, parts, Precedence::Pow);
+                        if signed {
+                            literal!(")");
+                        }
                     }
                     if prec < Precedence::Mul {
                         literal!(")");
@@ -225,19 +239,31 @@ impl ExprReply {
                     }
                     recurse(&binop.left, parts, succ);
                     literal!(binop.op.symbol());
-                    recurse(&binop.right, parts, op_prec);
+                    // Only `^` is right associative, the right-hand side
+                    // of everything else needs parens at the same level.
+                    if binop.op == BinOpType::Pow {
+                        recurse(&binop.right, parts, op_prec);
+                    } else {
+                        recurse(&binop.right, parts, succ);
+                    }
                     if prec < op_prec {
                         literal!(")");
                     }
                 }
                 Expr::UnaryOp(ref unaryop) => match unaryop.op {
-                    UnaryOpType::Positive => {
-                        literal!("+");
-                        recurse(&unaryop.expr, parts, Precedence::Plus)
-                    }
-                    UnaryOpType::Negative => {
-                        literal!("-");
-                        recurse(&unaryop.expr, parts, Precedence::Plus)
+                    UnaryOpType::Positive | UnaryOpType::Negative => {
+                        if prec < Precedence::Plus {
+                            literal!("(");
+                        }
+                        if unaryop.op == UnaryOpType::Positive {
+                            literal!("+");
+                        } else {
+                            literal!("-");
+                        }
+                        recurse(&unaryop.expr, parts, Precedence::Plus);
+                        if prec < Precedence::Plus {
+                            literal!(")");
+                        }
                     }
                     UnaryOpType::Degree(ref suffix) => {
                         if prec < Precedence::Mul {
@@ -258,7 +284,7 @@ impl ExprReply {
                         literal!("(");
                     }
                     let mut sub = vec![];
-                    recurse(expr, &mut sub, Precedence::Div);
+                    recurse(expr, &mut sub, Precedence::Mul);
                     parts.push(ExprParts::Property {
                         property: property.to_owned(),
                         subject: sub,
